@@ -683,6 +683,9 @@ impl TreeSink for MSink {
         }
     }
     fn same_node(&self, x: &usize, y: &usize) -> bool {
+        // comparing handles is a use of both nodes: a collecting sink would be handed a dangling handle
+        self.check_live("same_node", *x);
+        self.check_live("same_node", *y);
         x == y
     }
     fn set_quirks_mode(&self, mode: QuirksMode) {
